@@ -1295,7 +1295,8 @@ static WUR iwrc _kvblk_updatev(
         fsm->release_mmap(fsm);
         rc = _kvblk_rmkv(kb, pidx, RMKV_NO_RESIZE);
         RCGO(rc, finish);
-        rc = _kvblk_addkv(kb, ukey, uval, idxp, false);
+        // a key read back from the block is already in its stored form (compound prefix included)
+        rc = _kvblk_addkv(kb, ukey, uval, idxp, ukey != key);
         break;
       }
     }
